@@ -255,7 +255,9 @@ class Unordered:
                 return "ok", "bound to a local (its uses are tracked)"
             if isinstance(tgt, (ast.Tuple, ast.List)):
                 return "sensitive", "unpacked positionally"
-            return "ok", "stored (field/element)"
+            if self.is_set_type(n, f) or isinstance(n, (ast.Set, ast.SetComp)):
+                return "ok", "a set stored in a field/element (still a set; readers are tracked by type)"
+            return "sensitive", "a sequence built in hash-seed dependent order is stored in a field/element"
         if isinstance(par, ast.Return):
             return "ok", "returned (call sites are tracked)"
         if isinstance(par, ast.Expr):
